@@ -56,10 +56,11 @@ class Clause:
 class Structural:
     """callee-side only: a Python-level fact about the executed path (e.g. which processes it spawned)."""
 
-    def __init__(self, name, fn, props=()):
+    def __init__(self, name, fn, props=(), caller_effect=None):
         self.name = name
         self.fn = fn       # fn(pc) -> z3 Bool / bool
         self.props = props
+        self.caller_effect = caller_effect   # caller side: reproduce the ghost effect on pc.new
 
 
 class ExcCase:
@@ -229,7 +230,8 @@ def _build_new_state(con, pc, clauses_fn_result, lineno):
         elif isinstance(it, Clause):
             plain.append(it)
         elif isinstance(it, Structural):
-            pass
+            if it.caller_effect is not None:
+                it.caller_effect(pc)
         else:
             raise TypeError(it)
     for it in plain:
@@ -315,7 +317,8 @@ def verify_function(lib, cls, fname, fnode, con, timeout_ms=10000, want_models=T
         # cover: the entry assumptions are satisfiable (vacuity guard)
         cov = logic.solve(entry.pc + entry.hyps, [], timeout_ms=timeout_ms, want_model=True,
                           len_terms=lib.len_terms(entry), mode="model")
-        res.cover = "sat" if cov.status == "refuted" else ("UNSAT" if cov.status == "proved" else "unknown")
+        res.cover = "sat" if cov.status == "refuted" else ("UNSAT" if cov.status == "proved" else (
+            "sat-after-instantiation" if "sat-after-instantiation" in cov.reason else "unknown"))
         outcomes = ex.exec_block(fnode.body, body_state)
         outcomes = lib.finish_outcomes(ex, cls, fname, con, outcomes)
         res.paths = len(outcomes)
@@ -341,6 +344,7 @@ def verify_function(lib, cls, fname, fnode, con, timeout_ms=10000, want_models=T
               "seconds": 0.0, "lineno": fnode.lineno}
     if getattr(con, "has_normal_exit", True):
         reach = False
+        weak = False
         for o in outcomes:
             if o.kind in ("next", "return"):
                 r = logic.solve(o.state.pc + o.state.hyps, [], timeout_ms=timeout_ms, want_model=True,
@@ -348,7 +352,13 @@ def verify_function(lib, cls, fname, fnode, con, timeout_ms=10000, want_models=T
                 if r.status == "refuted":
                     reach = True
                     break
-        if not reach:
+                if "sat-after-instantiation" in r.reason:
+                    weak = True
+        if reach:
+            canary["reason"] = "a normal exit path has a validated model"
+        elif weak:
+            canary["reason"] = "a normal exit path is satisfiable after index-set instantiation (model not validated)"
+        else:
             canary["status"] = "vacuous"
     res.obligations.append(canary)
     res.seconds = time.time() - t0
